@@ -36,11 +36,11 @@ FILEMAP = {
     "iv_event_raw_posix.c": ["C09", "C15", "C18"],
     "iv_signal.c": ["C10", "C14", "C19"],
     "iv_wait.c": ["C11", "C14", "C19"],
-    "iv_work.c": ["C12", "C13", "C14"],
+    "iv_work.c": ["C12", "C13", "C14", "C18"],
     "iv_thread_posix.c": ["C13", "C18"],
     "iv_popen.c": ["C19", "C18"],
-    "iv_fd_pump.c": ["C17", "C15"],
-    "iv_inotify.c": ["C20", "C01"],
+    "iv_fd_pump.c": ["C17", "C15", "C18"],
+    "iv_inotify.c": ["C20", "C01", "C18"],
     "iv_tls.c": ["C18", "C07"],
 }
 LOCK = threading.Lock()
